@@ -434,7 +434,7 @@ var svcIDs = []string{gcWorker, "ticdc", "br", "br-1", "svc_a", ""}
 var ttlSpecs = []string{"-1", "0", "1", "1000000", "max-now", "max", "min", "max-now-1e6", "3600"}
 
 type Seed struct {
-	ID  int    `json:"id"`  // index into svcIDs (never the empty id)
+	ID  int    `json:"id"` // index into svcIDs (never the empty id)
 	SP  uint64 `json:"sp"`
 	Exp string `json:"exp"` // expired | epoch | live | inf
 }
@@ -655,10 +655,17 @@ func runSvc(c SvcCase) (vkit.Info, error) {
 		sp := op.SP
 		if op.Rel {
 			mn, _ := minOf(pre)
-			if op.D < 0 && uint64(-op.D) > mn {
+			switch {
+			case op.D < 0 && uint64(-op.D) > mn:
 				sp = 0
-			} else {
-				sp = uint64(int64(mn) + int64(op.D))
+			case op.D < 0:
+				sp = mn - uint64(-op.D)
+			case mn > math.MaxUint64-1-uint64(op.D):
+				// saturate below MaxUint64: that value is the code's "no safe point" sentinel, not a
+				// timestamp a service can hold (see assumptions)
+				sp = math.MaxUint64 - 1
+			default:
+				sp = mn + uint64(op.D)
 			}
 		}
 		resp, err := fx.Svr.UpdateServiceGCSafePoint(ctx, &pdpb.UpdateServiceGCSafePointRequest{
